@@ -147,6 +147,13 @@ def corruptions(seed, donors, lay, every_boundary):
         ("only_end", False, True, b"end\n"),
         ("only_end_module", False, True, b"end module never_opened\n"),
         ("only_open", False, True, b"module never_closed\n"),
+        ("enumerator_with_non_integer_value", False, True, b"module m_enum_bad\nenum, bind(c)\nenumerator :: e_one = 1.5\nenumerator :: e_two\nend enum\nend module m_enum_bad\n"),
+        ("enumerator_with_non_integer_value", False, True, b"module m_enum_bad2\nenum, bind(c)\nenumerator :: e_a = 2*3 + )\nend enum\nend module m_enum_bad2\n"),
+        # an INCLUDE of a header (*.h) that is nowhere, standing where the line is handed back to the reader: first line of the file, right after
+        # a unit opening, after a `;`
+        ("include_of_missing_header", False, True, b'include "machine_missing.h"\nsubroutine after_h()\n'),
+        ("include_of_missing_header", False, True, b'subroutine legacy_h()\ninclude "machine_missing.h"\ninteger :: k\n'),
+        ("include_of_missing_header", False, True, b'module m_h_semi\ninteger :: a ; include "machine_missing.h"\nend module m_h_semi\nend\n'),
         ("module_without_name", False, True, b"module\ninteger :: nameless_var\nend module\n"),
         ("module_without_name", False, True, b"module\n"),
         # submodules whose parent is the submodule itself, is nowhere, or whose parents form a cycle (the ancestor module is a valid one of the project)
@@ -405,8 +412,13 @@ def cli_case(arg):
             write_tree(os.path.join(proj, "src"), COMPANIONS)
             write_tree(os.path.join(proj, "src"), extra)
             # (files with an upper-case extension go through the default preprocessor first)
-            site.write_project_file(proj, {"project": "Robust", "src_dir": "./src", "output_dir": "./doc", "preprocess": any(b[0].endswith(".F90") for b in bad), "search": True, "graph": False,
-                                           "display": ["public", "private", "protected"], "proc_internals": True, "incl_src": True, "parallel": 0})
+            popts = {"project": "Robust", "src_dir": "./src", "output_dir": "./doc", "preprocess": any(b[0].endswith(".F90") for b in bad), "search": True, "graph": False,
+                     "display": ["public", "private", "protected"], "proc_internals": True, "incl_src": True, "parallel": 0}
+            if any(b[1] == "preprocessor_fails_on_it" for b in bad):
+                # an external preprocessor, and a valid file (read after the broken one) whose documentation depends on being preprocessed
+                popts["preprocessor"] = "cpp -traditional-cpp -E"
+                write_tree(os.path.join(proj, "src"), {"zz_pp_user.F90": "#ifdef VF_NOT_DEFINED\nmodule pp_hidden_branch\n!! doc\nend module pp_hidden_branch\n#else\nmodule pp_shown_branch\n!! doc\nend module pp_shown_branch\n#endif\n"})
+            site.write_project_file(proj, popts)
             r = site.run_cli(proj, timeout=600, env={"PYTHONHASHSEED": "0", "VF_CPU_LIMIT": str(CPU_LIMIT * 2), "PYTHONPATH": AUDIT_DIR + ":" + core.REPO})
             res[tag] = (r, tree_hash(os.path.join(proj, "doc")) if os.path.isdir(os.path.join(proj, "doc")) else {})
         classes = sorted({b[1] for b in bad})
@@ -421,7 +433,8 @@ def cli_case(arg):
             return {"viol": [{"kf": {"kind": "does_not_terminate", "classes": classes, "layer": "cli"}, "w": {**w0, "cpu_seconds": CPU_LIMIT * 2}}], "outcome": "hang"}
         text = rv["stdout"] + rv["stderr"]
         if rv["rc"] != 0:
-            return {"viol": [{"kf": {"kind": "run_aborted", "phase": phase_of(text), "layer": "cli"}, "w": {**w0, "classes": classes, "rc": rv["rc"], "tail": text[-1500:]}}], "outcome": "aborted"}
+            exc = ([m_.group(1) for m_ in re.finditer(r"(?m)^(\w+(?:Error|Exception)):", text)] or ["?"])[-1]
+            return {"viol": [{"kf": {"kind": "run_aborted", "phase": phase_of(text), "layer": "cli", "exception": exc}, "w": {**w0, "classes": classes, "rc": rv["rc"], "tail": text[-1500:]}}], "outcome": "aborted"}
         viol = []
         tv_lower = {k.lower() for k in tv}  # (page names are lower-cased)
         documented = [b for b in bad if os.path.join("sourcefile", os.path.basename(b[0]) + ".html").lower() in tv_lower and "/" not in b[0]] + [b for b in bad if "/" in b[0] and set(tv) - set(tb)]
@@ -497,6 +510,8 @@ def main():
         for ci in rng.sample(range(len(cs)), min(ncli, len(cs))):
             nm = f"{rng.choice(prefixes)}_bad{ci}.f90" if rng.random() < 0.6 else rng.choice([f"zz_legacy/{rng.choice(vnames)}", f"zz_a_rather_long_directory_name_for_the_legacy_sources/and_one_more_level_below_it/q_bad{ci}.f90"])
             cli_tasks.append((s, [(nm, cs[ci][0], cs[ci][1], cs[ci][2], cs[ci][3])]))
+        if shutil.which("cpp"):
+            cli_tasks.append((s, [("a_ppfail.F90", "preprocessor_fails_on_it", False, True, b"#ifdef VF_X\nmodule ppbad\ninteger :: a\nend module ppbad\nend module never_opened\n")]))
         # default settings: files with an upper-case extension are preprocessed (pcpp) before they are read
         bytes_classes = [ci for ci, c in enumerate(cs) if c[0] in ("undecodable_bytes", "utf16_file", "latin1_file", "nul_bytes")]
         for ci in rng.sample(bytes_classes, min(3, len(bytes_classes))) + rng.sample(range(len(cs)), 2):
